@@ -207,10 +207,8 @@ def capture():
 
     cap = _Capture()
     loggers = [hl.logger, hl.logger_unique]
-    # the unique filter would hide repeated warnings of later runs in the same process
-    for f in list(hl.logger_unique.filters):
-        if hasattr(f, "records"):
-            f.records.clear()
+    # NOTE: halmos' process-wide "unique" log filter is deliberately left alone: whether a later test still gets its
+    # warning after an earlier one printed the same text is part of the behaviour under test (C10)
     old = [(lg.level, lg.propagate) for lg in loggers]
     hl.logger.addHandler(cap)
     hl.logger.setLevel(logging.INFO)
